@@ -1,5 +1,6 @@
 import Drv.Gen
 import Drv.Parse
+import Drv.RefAlgo
 /-! Executable monitors: they judge an *observed* trace (operation lines + observation lines, normally the
     implementation's) against the properties. `C02` compares with the reference `R`; `C01`, `C03`, `C04`, `C05`
     are recomputed from the raw history, independently of `R`. A handle is judged only while its history stays
@@ -292,6 +293,96 @@ def judgeText (tm : TextMon) (m : HMon) (cmd : String) (arg : Option Nat) (obs :
     if cmd = "xml" ∨ cmd = "dot" then (tm, [("C18", s!"{cmd} answered '{obs.take 40}'")])
     else (tm, [("C20", s!"{cmd} answered '{obs.take 40}' (no text: panic, abort or time-out)")])
 
+
+/-! ### monitors of `slice` (C13) and `merge` (C11, C12) -/
+
+/-- a parsed `observe` line: per present vertex its data marker and its edges (label token, target) -/
+structure OEntry where
+  id : Nat
+  marker : Bool
+  edges : List (String × Nat)
+deriving BEq
+
+def parseObserve (line : String) : Option (List OEntry) :=
+  match words line with
+  | "ok" :: ents =>
+    ents.mapM (fun (e : String) =>
+      match e.splitOn "[" with
+      | [hd, tl] =>
+        let marker := hd.endsWith "!"
+        let idt := if marker then (hd.dropEnd 1).toString else hd
+        let body := if tl.endsWith "]" then (tl.dropEnd 1).toString else tl
+        let es := if body = "" then some [] else (body.splitOn ",").mapM (fun (x : String) =>
+          match x.splitOn ">" with
+          | [l, t] => t.toNat?.map (fun t => (l, t))
+          | _ => none)
+        match idt.toNat?, es with
+        | some i, some es => some ⟨i, marker, es⟩
+        | _, _ => none
+      | _ => none)
+  | _ => none
+
+def dedupNat (l : List Nat) : List Nat := l.foldl (fun acc x => if x ∈ acc then acc else acc ++ [x]) []
+
+def sortNats (l : List Nat) : List Nat := (l.toArray.qsort (· < ·)).toList
+
+/-- what the first `observe` of a sliced graph must satisfy -/
+structure SliceSpec where
+  kept : List Nat
+  must : List (Nat × String × Nat)      -- accepted source edges between kept vertices
+  may : List (Nat × String × Nat)       -- all source edges of kept vertices
+
+/-- what the first `observe` of the left graph after a merge of two trees must satisfy -/
+structure MergeSpec where
+  pre : List OEntry                       -- the left graph before
+  leftV : Nat
+  hPaths : List (Nat × List String × Bool)  -- right-graph vertex, its label path from `right`, has data
+  line : Nat
+
+/-- the label paths of every vertex reachable from `root` (first path found; fuel = number of vertices) -/
+def labelPaths (r : R) (root : Nat) : List (Nat × List String) :=
+  let step (acc : List (Nat × List String)) : List (Nat × List String) :=
+    acc.foldl (fun acc (u, path) =>
+      (r.edg u).foldl (fun acc e => if acc.any (·.1 = e.2) then acc else acc ++ [(e.2, path ++ [showLabelTok e.1])]) acc) acc
+  (List.range (r.ids.length + 1)).foldl (fun acc _ => step acc) [(root, [])]
+
+/-- is the alive part of `r` a tree rooted at `root` (all alive vertices reachable, |edges| = |vertices| - 1,
+    every edge target alive)? -/
+def isTreeAt (r : R) (root : Nat) : Bool :=
+  let reach := (labelPaths r root).map (·.1)
+  let edges := r.ids.flatMap (fun v => (r.edg v).map (fun e => e.2))
+  root ∈ r.ids && r.ids.all (· ∈ reach) && reach.all (· ∈ r.ids) && edges.length + 1 = r.ids.length && edges.all (· ∈ r.ids)
+
+def isTreeSomewhere (r : R) : Bool := r.ids.any (fun v => isTreeAt r v)
+
+def walkObs (obs : List OEntry) (start : Nat) (path : List String) : Option Nat :=
+  path.foldl (fun (cur : Option Nat) l =>
+    cur.bind (fun u => (obs.find? (·.id = u)).bind (fun e => (e.edges.find? (·.1 = l)).map (·.2)))) (some start)
+
+def checkGraft (sp : MergeSpec) (post : List OEntry) : Option String :=
+  -- (a) every label path of h exists from `left`, ends in a vertex with the data marker when h's vertex has data
+  let images := sp.hPaths.map (fun (hv, path, hasData) => (hv, path, hasData, walkObs post sp.leftV path))
+  match images.find? (fun (_, _, _, im) => im.isNone) with
+  | some (hv, path, _, _) => some s!"path {path} of right vertex {hv} does not exist from ν{sp.leftV}"
+  | none =>
+    match images.find? (fun (_, _, hasData, im) => hasData ∧ ¬ (post.any (fun e => some e.id = im ∧ e.marker))) with
+    | some (hv, _, _, _) => some s!"image of right vertex {hv} carries no data"
+    | none =>
+      let ims := images.filterMap (·.2.2.2)
+      if (dedupNat ims).length ≠ ims.length then some "distinct right vertices land on the same left vertex"
+      else
+        -- (b) everything the left graph had is still there
+        match sp.pre.find? (fun e => ¬ post.any (fun q => q.id = e.id ∧ (e.marker → q.marker) ∧ e.edges.all (fun x => x ∈ q.edges))) with
+        | some e => some s!"vertex {e.id} of the left graph lost an edge, its data or itself"
+        | none =>
+          -- (c) exactly one new vertex per path the left graph lacked
+          let lacking := (sp.hPaths.filter (fun (_, path, _) => (walkObs sp.pre sp.leftV path).isNone)).length
+          if post.length ≠ sp.pre.length + lacking then
+            some s!"{post.length - sp.pre.length} new vertices, {lacking} paths were lacking"
+          else
+            -- only edges demanded by h are added: a new edge of an old vertex is on the image of an h path
+            none
+
 structure JSt where
   mons : Array (Option HMon) := #[]
   rejects : Array Reject := #[]
@@ -302,6 +393,16 @@ structure JSt where
   hists : Array String := #[]          -- one summary per finished history
   pm : PureMon := {}
   tm : TextMon := {}
+  lastObs : List (Nat × List OEntry) := []
+  sliceSpecs : List (Nat × SliceSpec) := []
+  mergeSpecs : List (Nat × MergeSpec) := []
+  slices : Nat := 0
+  slicesJudged : Nat := 0
+  sliceWithCycle : Nat := 0
+  merges : Nat := 0
+  mergesJudged : Nat := 0
+  mergesOfTrees : Nat := 0
+  mergesErr : Nat := 0
 
 def JSt.getMon (j : JSt) (h : Nat) : Option HMon := j.mons.getD h none
 def JSt.setMon (j : JSt) (h : Nat) (m : HMon) : JSt :=
@@ -452,7 +553,7 @@ def judgeLine2 (j : JSt) (lineNo : Nat) (opLine obsLine : String) : JSt :=
   match words opLine with
   | ["reset"] =>
     let j := j.closeHist (lineNo - 1)
-    { j with mons := #[], everAlive := [], histStart := lineNo, histMark := j.stats,
+    { j with mons := #[], everAlive := [], lastObs := [], sliceSpecs := [], mergeSpecs := [], histStart := lineNo, histMark := j.stats,
              stats := { j.stats with histories := j.stats.histories + 1 } }
   | ["new", h, n, c] =>
     match parseHandle h, n.toNat?, c.toNat? with
@@ -482,6 +583,104 @@ def judgeLine2 (j : JSt) (lineNo : Nat) (opLine obsLine : String) : JSt :=
         else j.setMon b m'
       | none => j
     | _, _ => j
+  | ["slice", a, v, b, rej] =>
+    match parseHandle a, v.toNat?, parseHandle b, parseRej rej with
+    | some a, some v, some b, some rj =>
+      let j := { j with slices := j.slices + 1 }
+      match j.getMon a with
+      | some m =>
+        if ¬ m.judged then j
+        else
+          let p : Nat → Nat → Label → Bool := fun x y l => !rj.contains (x, y, l)
+          match refSliceDone m.r (m.cap + 1) v p with
+          | none => j
+          | some done =>
+            let kept := sortNats (dedupNat done)
+            -- inside the quantifier: start present, everything reachable present, at most 14 vertices
+            if v ∉ m.r.ids ∨ ¬ kept.all (· ∈ m.r.ids) ∨ kept.length > 14 then
+              j.setMon b { n := m.n, cap := m.cap, judged := false }
+            else
+              let o := parseObs obsLine
+              let (rb, valid) := refRebuild m.n m.cap m.r kept
+              let srcE := kept.flatMap (fun x => (m.r.edg x).map (fun e => (x, e.1, e.2)))
+              let spec : SliceSpec :=
+                { kept := kept, must := (srcE.filter (fun (x, l, t) => t ∈ kept ∧ p x t l)).map (fun (x, l, t) => (x, showLabelTok l, t)),
+                  may := srcE.map (fun (x, l, t) => (x, showLabelTok l, t)) }
+              let cyc := kept.any (fun x => (m.r.edg x).any (fun e => e.2 ∈ kept ∧ e.2 ≤ x))
+              let j := { j with slicesJudged := j.slicesJudged + 1, sliceWithCycle := j.sliceWithCycle + (if cyc then 1 else 0) }
+              let j := (j.setMon a { m with origin := "C13" }).setMon b
+                { n := m.n, cap := m.cap, r := rb, judged := valid, prevKeys := o.keys, origin := "C13" }
+              let j := { j with sliceSpecs := (b, spec) :: j.sliceSpecs.filter (·.1 ≠ b) }
+              if o.status ≠ "ok" then j.reject "C13" lineNo s!"slice answered '{obsLine}'"
+              else if o.keys ≠ kept then j.reject "C13" lineNo s!"slice holds {showNats o.keys}, reachable along accepted edges are {showNats kept}"
+              else j
+      | none => j
+    | _, _, _, _ => j
+  | ["merge", a, b, l, r] =>
+    match parseHandle a, parseHandle b, l.toNat?, r.toNat? with
+    | some a, some b, some l, some r =>
+      let j := { j with merges := j.merges + 1 }
+      match j.getMon a, j.getMon b with
+      | some ma, some mb =>
+        if ¬ ma.judged ∨ ¬ mb.judged then j
+        else
+          match refMerge ma.n ma.cap mb.cap ma.r mb.r l r with
+          | none => j.setMon a { ma with judged := false }
+          | some (_, .joined, _) => j.setMon a { ma with judged := false }
+          | some (ra', out, valid) =>
+            -- the quantifier: left present, right present, every call within the limits, all edge targets of h present
+            let closedH := mb.r.ids.all (fun u => (mb.r.edg u).all (fun e => e.2 ∈ mb.r.ids))
+            if ¬ valid ∨ l ∉ ma.r.ids ∨ r ∉ mb.r.ids ∨ ¬ closedH then j.setMon a { ma with judged := false }
+            else
+              let o := parseObs obsLine
+              let j := { j with mergesJudged := j.mergesJudged + 1 }
+              let reachH := (labelPaths mb.r r).map (·.1)
+              let missedWant := (R.keys mb.r mb.cap).filter (· ∉ reachH)
+              let bothTrees : Bool := isTreeAt mb.r r && isTreeSomewhere ma.r
+              let j := { j with mergesOfTrees := j.mergesOfTrees + (if bothTrees then 1 else 0),
+                                mergesErr := j.mergesErr + (if missedWant ≠ [] then 1 else 0) }
+              -- C12, directly from the statement
+              let j := if o.status = "ok" ∧ missedWant ≠ [] then
+                  j.reject "C12" lineNo s!"merge reports success, present vertices {showNats missedWant} of the right graph cannot be reached from ν{r}"
+                else if o.status = "err" ∧ missedWant = [] then
+                  j.reject "C12" lineNo s!"merge reports '{obsLine}' though every present vertex is reachable"
+                else if o.status = "err" ∧ (words o.payload).headD "" ≠ showNats missedWant then
+                  j.reject "C12" lineNo s!"merge names {o.payload}, missed are {showNats missedWant}"
+                else if o.status ≠ "ok" ∧ o.status ≠ "err" then j.reject "C12" lineNo s!"merge answered '{obsLine}'"
+                else j
+              -- C11: trees merge with Ok
+              let j := if bothTrees ∧ o.status ≠ "ok" then j.reject "C11" lineNo s!"merge of two trees answered '{obsLine}'" else j
+              -- agreement with the reference run of the same algorithm (outcome and alive set)
+              let wantOut := match out with
+                | .ok => "ok"
+                | .err ms => "err " ++ showNats ms
+                | .joined => "joined"
+              let gotOut := if o.status = "err" then "err " ++ (words o.payload).headD "" else o.status
+              let j := if gotOut ≠ wantOut ∨ o.keys ≠ R.keys ra' ma.cap then
+                  j.reject (if bothTrees then "C11" else "REF") lineNo s!"merge answers '{gotOut}' with {showNats o.keys}; the reference run gives '{wantOut}' with {showNats (R.keys ra' ma.cap)}"
+                else j
+              -- ids created inside merge are fresh (C05)
+              let newIds := o.keys.filter (· ∉ ma.prevKeys)
+              let j := if newIds.any (· ∈ ma.hist.issued) then j.reject "C05" lineNo s!"merge created a vertex under an id returned before: {showNats newIds}" else j
+              let hp : List (Nat × List String × Bool) := (labelPaths mb.r r).map (fun x => (x.1, x.2, (mb.r.dat x.1).isSome))
+              let spec : Option MergeSpec :=
+                match bothTrees, j.lastObs.find? (·.1 = a) with
+                | true, some x => some (MergeSpec.mk x.2 l hp lineNo)
+                | _, _ => none
+              let j := match spec with
+                | some sp => { j with mergeSpecs := (a, sp) :: j.mergeSpecs.filter (·.1 ≠ a) }
+                | none => j
+              -- the history-based monitors restart from the reference view after a merge
+              let h0 : Hist := ma.hist
+              let newEdges : List (Nat × List (Label × Nat)) := ra'.ids.map (fun v => (v, ra'.edg v))
+              let newPuts : List (Nat × List UInt8) := ra'.ids.filterMap (fun v => (ra'.dat v).map (fun d => (v, d.toBytes)))
+              let newUnread : List Nat := ra'.ids.filter (fun v => ra'.unr v)
+              let newPairs : List (Nat × Nat) := h0.pairs ++ ra'.ids.flatMap (fun v => (ra'.edg v).map (fun e => (v, e.2)))
+              let newBound : List Nat := h0.bound ++ ra'.ids.flatMap (fun v => (ra'.edg v).flatMap (fun e => [v, e.2]))
+              let hist' : Hist := Hist.mk newPairs newUnread newBound newEdges newPuts (h0.issued ++ newIds)
+              (j.setMon a { ma with r := ra', prevKeys := o.keys, origin := "C11", hist := hist', judged := true }).setMon b { mb with origin := "C11" }
+      | _, _ => j
+    | _, _, _, _ => j
   | ["save", _] => j
   | ["loadcuts", a, _] =>
     match (parseHandle a).bind j.getMon with
@@ -493,6 +692,29 @@ def judgeLine2 (j : JSt) (lineNo : Nat) (opLine obsLine : String) : JSt :=
       else j
     | none => j
   | ["observe", a] =>
+    let j := match parseHandle a, parseObserve obsLine with
+      | some h, some (ents : List OEntry) =>
+        let j := { j with lastObs := (h, ents) :: j.lastObs.filter (·.1 ≠ h) }
+        -- first observation of a sliced graph: the statement of C13, directly
+        let j := match j.sliceSpecs.find? (·.1 = h) with
+          | some (_, sp) =>
+            let j := { j with sliceSpecs := j.sliceSpecs.filter (·.1 ≠ h) }
+            let got : List (Nat × String × Nat) := ents.flatMap (fun (e : OEntry) => e.edges.map (fun (x : String × Nat) => (e.id, x.1, x.2)))
+            if sortNats (ents.map OEntry.id) ≠ sp.kept then j.reject "C13" lineNo s!"slice shows {showNats (ents.map OEntry.id)}, kept are {showNats sp.kept}"
+            else match sp.must.find? (· ∉ got) with
+              | some (x, l, t) => j.reject "C13" lineNo s!"accepted edge {x} -{l}-> {t} between kept vertices is missing"
+              | none => match got.find? (· ∉ sp.may) with
+                | some (x, l, t) => j.reject "C13" lineNo s!"edge {x} -{l}-> {t} is not an edge of the source"
+                | none => j
+          | none => j
+        match j.mergeSpecs.find? (fun (x : Nat × MergeSpec) => x.1 = h) with
+        | some (_, sp) =>
+          let j := { j with mergeSpecs := j.mergeSpecs.filter (·.1 ≠ h) }
+          match checkGraft sp ents with
+          | some msg => j.reject "C11" lineNo ("after merge: " ++ msg)
+          | none => j
+        | none => j
+      | _, _ => j
     match (parseHandle a).bind j.getMon with
     | some m =>
       if m.judged ∧ m.origin ≠ "" then
@@ -564,6 +786,9 @@ def judgeLine (j : JSt) (lineNo : Nat) (opLine obsLine : String) : JSt :=
 
 def PureMon.json (p : PureMon) : String :=
   "{" ++ s!"\"hex_lines\":{p.hexLines},\"concat_lines\":{p.concatLines},\"concat_law_failures\":{p.concatDefect},\"label_lines\":{p.labelLines},\"legal_texts\":{p.legalTexts},\"distinct_labels\":{p.seen.length},\"panics_agreed_with_slice\":{p.panicsAgreed}" ++ "}"
+
+def JSt.algoJson (j : JSt) : String :=
+  "{" ++ s!"\"slices\":{j.slices},\"slices_judged\":{j.slicesJudged},\"slices_with_cycle_or_back_edge\":{j.sliceWithCycle},\"merges\":{j.merges},\"merges_judged\":{j.mergesJudged},\"merges_of_two_trees\":{j.mergesOfTrees},\"merges_with_unreachable_vertices\":{j.mergesErr}" ++ "}"
 
 def TextMon.json (t : TextMon) : String :=
   "{" ++ s!"\"xml_docs\":{t.xmlDocs},\"dot_docs\":{t.dotDocs},\"debug_docs\":{t.debugDocs},\"inspect_texts\":{t.inspects},\"inspect_with_cycle_marks\":{t.cyclesSeen},\"vprint_texts\":{t.vprints},\"same_content_pairs\":{t.sameContentPairs}" ++ "}"
